@@ -693,6 +693,108 @@ def rule_timestamp_model(ctx) -> None:
     ctx.chk.decide(not probs, "C04.timestamp-model", f"{MISC}::pack_timestamp/unpack_timestamp", f"microseconds since 2000-01-01 UTC, unpack inverts pack ({n} model times)", "; ".join(probs[:2])[:500], "", A.loc(MISC, pk.node))
 
 
+def rule_section_model(ctx) -> None:
+    """C04.section-model: BootSectionV2.export and .parse interpreted end to end on model sections (the section class, CmdHeader and the
+    Counter class are stepped into; AES-CTR is a keystream that depends on (key, counter block), HMAC an injective stand-in; commands are
+    opaque records of 1-2 cipher blocks).  Obligations, for requested HMAC counts 1-4 on sections of 1-4 blocks: the section parses back to
+    the same commands, section id and effective HMAC count; writer and reader leave the block counter at the same value and that value has
+    advanced by exactly the number of 16-byte blocks written (the ROM's counter is nonce + block index); a flipped byte anywhere in the
+    encrypted section (sampled positions incl. every field boundary) makes parse raise."""
+    import hashlib
+    from ..engines import roundtrip
+    oe = ordereval
+    Obj = oe.Obj
+    SYM = "spsdk/crypto/symmetric.py"
+    sec, hdr, cnt = ctx.cls(SEC, "BootSectionV2"), ctx.cls(CMD, "CmdHeader"), ctx.cls(SYM, "Counter")
+    sym_map = {"Endianness.LITTLE": Obj(value="little"), "Endianness.BIG": Obj(value="big")}
+
+    def leaves(c: ast.Call, ev):
+        f = norm(c.func)
+        if f in ("aes_ctr_encrypt", "aes_ctr_decrypt") and len(c.args) + len(c.keywords) == 3:
+            key, data, nonce = (ev.ev(x) for x in (list(c.args) + [k.value for k in c.keywords])[:3])
+            if len(data) > 16:
+                raise oe.Unsupported(c, "the model cipher works block by block")
+            return bytes(a ^ b for a, b in zip(bytes(data), hashlib.sha256(b"K" + bytes(key) + bytes(nonce)).digest()))
+        if f == "hmac" and len(c.args) == 2:
+            return hashlib.sha256(b"H" + bytes(ev.ev(c.args[0])) + bytes(ev.ev(c.args[1]))).digest()
+        if f == "parse_command" and len(c.args) == 1:
+            d = bytes(ev.ev(c.args[0]))
+            n_ = 16 * d[0] if d else 0
+            if n_ == 0 or n_ > len(d):
+                raise oe.ModelRaise(oe.Outcome("raise", None, c))
+            return Obj(_cmdbytes=d[:n_], raw_size=n_)
+        if isinstance(c.func, ast.Attribute) and c.func.attr == "export" and not c.args:
+            try:
+                o = ev.ev(c.func.value)
+            except oe.Unsupported:
+                return oe.NOT_MODELLED
+            if isinstance(o, Obj) and "_cmdbytes" in o.__dict__:
+                return o.__dict__["_cmdbytes"]
+        if f == "isinstance" and len(c.args) == 2 and norm(c.args[1]) == "CmdBaseClass":
+            v = ev.ev(c.args[0])
+            return isinstance(v, Obj) and "_cmdbytes" in v.__dict__
+        return roundtrip.std_leaves(c, ev)
+    calls = ctx.model_calls(leaves, sym_map, classes={"BootSectionV2": sec, "CmdHeader": hdr, "Counter": cnt}, module=SEC, max_depth=7)
+    fn = ctx.own(SEC, "BootSectionV2", "export")
+
+    def cmd(nblocks: int, tag: int):
+        return Obj(_cmdbytes=bytes([nblocks]) + bytes([tag]) * (16 * nblocks - 1), raw_size=16 * nblocks)
+    nonce = bytes(range(0x30, 0x40))
+    probs: List[str] = []
+    n = 0
+    for H, cmds in ((1, [cmd(1, 0xA1)]), (2, [cmd(1, 0xA1), cmd(2, 0xB2), cmd(1, 0xC3)]), (3, [cmd(2, 0xD4), cmd(1, 0xE5)]), (4, [cmd(1, 1), cmd(1, 2), cmd(1, 3), cmd(1, 4)]),
+                    (1, [cmd(2, 0x77), cmd(2, 0x78)]), (2, [cmd(1, 0x10), cmd(1, 0x11)])):
+        label = f"hmac_count {H}, {sum(len(c_.__dict__['_cmdbytes']) for c_ in cmds) // 16} command blocks"
+        try:
+            env = {"H": H, "nonce": nonce, "dek": b"D" * 32, "mac": b"M" * 32, "BootSectionV2": ctx.class_standin(sec), "Counter": ctx.class_standin(cnt)}
+            ev = oe.Evaluator(env, ctx.fold_sym(fn, sym_map), opaque_return=False, call_value=calls)
+            s_ = ev.ev(ast.parse("BootSectionV2(7, hmac_count=H)", mode="eval").body)
+            s_.__dict__["_commands"] = tuple(cmds)
+            ev.env["s"] = s_
+            for nm in ("c0", "c1", "c2"):
+                ev.env[nm] = ev.ev(ast.parse("Counter(nonce)", mode="eval").body)
+            try:
+                data = ev.ev(ast.parse("s.export(dek, mac, c1)", mode="eval").body)
+            except oe.ModelRaise as mr:
+                probs.append(f"{label}: export of a valid section raises ({mr})")
+                continue
+            ev.env["data"] = data
+            try:
+                p_ = ev.ev(ast.parse("BootSectionV2.parse(data, 0, False, dek, mac, c2)", mode="eval").body)
+            except oe.ModelRaise as mr:
+                probs.append(f"{label}: the exported section does not parse back ({mr})")
+                continue
+            n += 1
+            start = ev.env["c0"].__dict__.get("_ctr")
+            got_cmds = [c_.__dict__.get("_cmdbytes") for c_ in p_.__dict__.get("_commands", ())]
+            want_cmds = [c_.__dict__["_cmdbytes"] for c_ in cmds]
+            adv1, adv2 = ev.env["c1"].__dict__.get("_ctr") - start, ev.env["c2"].__dict__.get("_ctr") - start
+            hp, hs = p_.__dict__.get("_header"), s_.__dict__.get("_header")
+            if got_cmds != want_cmds:
+                probs.append(f"{label}: parsed commands differ from the exported ones")
+            elif not (isinstance(hp, Obj) and hp.__dict__.get("address") == 7 and p_.__dict__.get("_hmac_count") == hs.__dict__.get("data")):
+                probs.append(f"{label}: section id / HMAC count come back as {getattr(hp, 'address', None)} / {p_.__dict__.get('_hmac_count')} (written: 7 / {hs.__dict__.get('data')})")
+            elif adv1 != adv2 or adv1 != len(data) // 16:
+                probs.append(f"{label}: {len(data) // 16} blocks written, the writer's counter advanced by {adv1}, the reader's by {adv2}")
+            else:
+                for pos in sorted(set(list(range(0, len(data), 7)) + [15, 16, 47, 48, len(data) - 17, len(data) - 1])):
+                    bad_data = bytearray(data)
+                    bad_data[pos] ^= 0x40
+                    ev.env["bad"] = bytes(bad_data)
+                    ev.env["c3"] = ev.ev(ast.parse("Counter(nonce)", mode="eval").body)
+                    try:
+                        ev.ev(ast.parse("BootSectionV2.parse(bad, 0, False, dek, mac, c3)", mode="eval").body)
+                        probs.append(f"{label}: byte {pos} of the section flipped and parse still returns a section")
+                        break
+                    except oe.ModelRaise:
+                        pass
+        except oe.Unsupported as ex:
+            raise AnalysisError(f"C04.section-model: BootSectionV2 left the fragment ({label}): {ex}")
+    ctx.chk.analysed(fn.qual)
+    ctx.chk.decide(not probs, "C04.section-model", f"{SEC}::BootSectionV2.export/parse", f"sections round-trip, the block counter follows the file position on both sides, tampering is refused ({n} model sections)",
+                   "; ".join(probs[:2])[:600], "", A.loc(SEC, fn.node))
+
+
 def rule_wire(ctx) -> None:
     wire.check_pair(ctx, "C04.wire", HDR, "ImageHeaderV2", "export", "parse")
     wire.check_pair(ctx, "C04.wire", CMD, "CmdHeader", "_raw_data", "parse")
@@ -716,6 +818,7 @@ def run(ctx) -> None:
                     "setter guards decided against the header item widths; memory-id bit placement by bit provenance.")
     ctx.rule(rule_wire)
     ctx.rule(rule_timestamp_model)
+    ctx.rule(rule_section_model)
     ctx.rule(rule_routes)
     ctx.rule(rule_image_routes)
     ctx.rule(rule_fill_word)
